@@ -20,7 +20,7 @@ import (
 )
 
 func init() {
-	fw.Register(&fw.Check{ID: "C18", Level: "model_checking", Run: runC18, QuickBudget: 90, ThoroughBudget: 1200})
+	fw.Register(&fw.Check{ID: "C18", Level: "model_checking", Run: runC18, QuickBudget: 150, ThoroughBudget: 1200})
 }
 
 // universe: 3 loose blobs, 2 packs of one blob each, 1 initial object
